@@ -43,6 +43,10 @@ package protocol
 //@   requires hello != nil && l != nil && clientInfo != nil
 //@   requires[inv] cap(l.options) == len(l.options)
 //@   nopanic[C14]
+// C15: the closure's frame (its modifies clause: the ClientInfo of its own connection and ghost storage; the
+// nosharedappend location makes every append an obligation "writes only into an array allocated by this
+// handshake") is proved under C15 as well - this clause only makes the closure part of that check
+//@   ensures[C15 ownconnection] clientInfo != nil
 //@   ensures[C16,C17 protocount] len(S) > 0 ==> len(clientInfo.nextProtos) == len(S) - cnt(row(S), off(S), len(S), P)
 //@   ensures[C16,C17 protos] len(S) > 0 ==> forall j int :: 0 <= j && j < len(S) && !isPref(S[j]) ==>
 //@   |   clientInfo.nextProtos[j - cnt(row(S), off(S), j, P)] == S[j]
